@@ -13,6 +13,16 @@ Space: every grammar shape with k <= 3 nonterminals, <= 2 alternatives per symbo
 <= 3 symbols over the nonterminals and 2 terminals, bounded total number of symbol occurrences,
 every nonterminal reachable -- times every assignment of nonterminal names from a pool of 4 (the
 check walks symbols in name order; 'AA' sorts between 'A' and the parser's own 'A__S00').
+
+Second dimension ('u' families): the same enumeration WITHOUT the reachability filter, restricted to the
+grammars in which at least one nonterminal is NOT reachable from the constructor's start symbol
+(unused / work-in-progress symbols).  The statement says "some symbol can reach itself": the spec
+left_recursive(G) ranges over all symbols of the grammar, reachable or not.  The cycle may consist of
+unreachable symbols only (direct, indirect, hidden behind a nullable prefix -- the nullable prefix itself
+reachable or not), of reachable symbols, or be absent.  For the accepted ones the terminates clause is
+exercised with parse(text) and with parse(text, start_symbol_name=s) for every other nonterminal s, in
+particular the unreachable ones (documented argument of LLParser.parse: "to check how small parts of
+source text are parsed").
 """
 import multiprocessing
 import os
@@ -33,26 +43,40 @@ GIR = 'GrammarIsRecursive'
 
 def families(tier):
     """(label, n_nt, terminals, max_alts, max_rhs, max_total, smart settings, max tokens for the
-    assignments other than the first one)"""
+    assignments other than the first one, mode); mode 'reachable': every nonterminal reachable from
+    the start symbol, mode 'unreachable': at least one nonterminal not reachable from it"""
+    R, U = 'reachable', 'unreachable'
     if tier == 'quick':
-        return [('k1', 1, TERMINALS, 2, 3, None, (True,), 2),
-                ('k2', 2, TERMINALS, 2, 3, 5, (True,), 2),
-                ('k3-1t', 3, TERMINALS[:1], 2, 3, 5, (True,), 2)]
-    return [('k1', 1, TERMINALS, 2, 3, None, (True, False), 5),
-            ('k2', 2, TERMINALS, 2, 3, 6, (True, False), 2),
-            ('k3', 3, TERMINALS, 2, 3, 5, (True, False), 2),
-            ('k3-1t', 3, TERMINALS[:1], 2, 3, 6, (True,), 5)]
+        return [('k1', 1, TERMINALS, 2, 3, None, (True,), 2, R),
+                ('k2', 2, TERMINALS, 2, 3, 5, (True,), 2, R),
+                ('k3-1t', 3, TERMINALS[:1], 2, 3, 5, (True,), 2, R),
+                ('u2', 2, TERMINALS, 2, 3, 4, (True,), 2, U),
+                ('u3-1t', 3, TERMINALS[:1], 2, 2, 4, (True,), 2, U)]
+    return [('k1', 1, TERMINALS, 2, 3, None, (True, False), 5, R),
+            ('k2', 2, TERMINALS, 2, 3, 6, (True, False), 2, R),
+            ('k3', 3, TERMINALS, 2, 3, 5, (True, False), 2, R),
+            ('k3-1t', 3, TERMINALS[:1], 2, 3, 6, (True,), 5, R),
+            ('u2', 2, TERMINALS, 2, 3, 5, (True, False), 2, U),
+            ('u3', 3, TERMINALS, 2, 3, 4, (True, False), 2, U),
+            ('u3-1t', 3, TERMINALS[:1], 2, 3, 5, (True,), 2, U)]
 
 
 def rule_text(tier):
-    fams = '; '.join(f"{n} nonterminal(s), <= {ma} alternatives, RHS <= {mr}, terminals {t}"
-                     + (f", <= {mt} symbol occurrences" if mt else '')
-                     + f", smart_factorization in {list(sm)}, inputs <= {MAX_TOKENS} tokens (<= {ol} for the name "
-                       f"assignments after the first / the second factorization setting)"
-                     for _, n, t, ma, mr, mt, sm, ol in families(tier))
-    return (f"exhaustive: every grammar shape with all nonterminals reachable in the families [{fams}] x every "
+    def fam_text(mode):
+        return '; '.join(f"{n} nonterminal(s), <= {ma} alternatives, RHS <= {mr}, terminals {t}"
+                         + (f", <= {mt} symbol occurrences" if mt else '')
+                         + f", smart_factorization in {list(sm)}, inputs <= {MAX_TOKENS} tokens (<= {ol} for the name "
+                           f"assignments after the first / the second factorization setting)"
+                         for _, n, t, ma, mr, mt, sm, ol, md in families(tier) if md == mode)
+    return (f"exhaustive: every grammar shape with all nonterminals reachable from the start symbol in the families "
+            f"[{fam_text('reachable')}] and every grammar shape with at least one nonterminal NOT reachable from the "
+            f"start symbol (the unreachable symbols may refer to each other, to reachable symbols and to terminals; "
+            f"left-corner cycle among the unreachable symbols only, among the reachable ones, or none) in the families "
+            f"[{fam_text('unreachable')}] x every "
             f"injective assignment of nonterminal names from the pool {POOL} (start symbol passed explicitly); "
             f"construction of each; for every accepted non-recursive grammar all token strings up to the stated length, "
+            f"parsed from the constructor's start symbol and, in the families with unreachable symbols, also with "
+            f"parse(start_symbol_name=s) for every other nonterminal s, "
             f"each parse under a budget of {STEP_BUDGET} parse-loop events and {WALL_BUDGET} s. A grammar that is "
             f"accepted although it is left-recursive by the spec is already a violation of raises_iff_recursive; its "
             f"parses (all strings <= {MAX_TOKENS} tokens, until the first overrun) are run only for the first "
@@ -99,6 +123,34 @@ def hidden_orders(G):
     return out
 
 
+def cyclic_symbols(G):
+    """the symbols that can reach themselves without consuming a token (X in LC+(X))"""
+    LC = gr.left_corner_closure(G)
+    return {x for x in G if x in LC[x]}
+
+
+def unreachable_class(G, start):
+    """None if every nonterminal is reachable from `start`; otherwise where the left-corner cycles are:
+    'no-cycle' | 'cycle-also-among-reachable' | 'cycle-only-among-unreachable:<direct|indirect|hidden>'
+    (direct: X -> X ...; indirect: a cycle through first symbols of >= 2 symbols and no direct one;
+    hidden: every cycle passes behind a nullable prefix)"""
+    U = set(G) - gr.reachable(G, start)
+    if not U:
+        return None
+    C = cyclic_symbols(G)
+    if not C:
+        return 'no-cycle'
+    if not C <= U:
+        return 'cycle-also-among-reachable'
+    if any(a and a[0] == x for x, alts in G.items() for a in alts):
+        how = 'direct'
+    elif plain_recursive(G):
+        how = 'indirect'
+    else:
+        how = 'hidden'
+    return 'cycle-only-among-unreachable:' + how
+
+
 def has_nullable_prefix(G):
     N = gr.nullable(G)
     return any(len(a) >= 2 and a[0] in N for alts in G.values() for a in alts)
@@ -135,9 +187,15 @@ def check_construction(G, start, terminals, smart, lr, hidden):
     gs = gr.grammar_str(G)
     if status == 'accepted' and lr:
         cls = 'hidden-behind-nullable-prefix' if hidden else 'plain'
-        fails.append(('raises_iff_recursive', f"accepted-left-recursive:{cls}",
+        cyc = sorted(cyclic_symbols(G))
+        off = not (set(cyc) & gr.reachable(G, start))
+        fails.append(('raises_iff_recursive', f"accepted-left-recursive:{cls}"
+                      + (':cycle-unreachable-from-start-symbol' if off else ''),
                       f"constructor accepts the left-recursive grammar [{gs}] (start {start}, smart_factorization="
-                      f"{smart}); expected GrammarIsRecursive ({cls} left recursion)"))
+                      f"{smart}); expected GrammarIsRecursive ({cls} left recursion: {', '.join(cyc)} can reach "
+                      f"{'themselves' if len(cyc) > 1 else 'itself'} without consuming a token"
+                      + ("; not reachable from the start symbol, but 'some symbol can reach itself' holds" if off else '')
+                      + ')'))
     elif status == GIR and not lr:
         fails.append(('raises_iff_recursive', 'rejected-non-recursive',
                       f"constructor raises GrammarIsRecursive for [{gs}] (start {start}, smart_factorization={smart}) "
@@ -156,28 +214,37 @@ def check_construction(G, start, terminals, smart, lr, hidden):
     return status, parser, fails, diags
 
 
-def check_parse(parser, tokens, lr):
+def check_parse(parser, tokens, lr, parse_start=None):
     """terminates clause on one input -> (outcome, steps, fail or None, diag or None);
-    outcome: 'tree' | 'parsing-error' | 'other-exception' | 'overrun'"""
+    outcome: 'tree' | 'parsing-error' | 'other-exception' | 'overrun'.
+    parse_start: None = the constructor's start symbol, else the value of parse's documented
+    start_symbol_name argument (a nonterminal of the grammar)"""
     text = gr.text_of(tokens)
-    kind, val, steps = gr.guarded(lambda: parser.parse(text, do_cleanup=False), wall_s=WALL_BUDGET, steps=STEP_BUDGET)
+    if parse_start is None:
+        call, shown = (lambda: parser.parse(text, do_cleanup=False)), f"parse({text!r})"
+    else:
+        call = lambda: parser.parse(text, do_cleanup=False, start_symbol_name=parse_start)
+        shown = f"parse({text!r}, start_symbol_name={parse_start!r})"
+    kind, val, steps = gr.guarded(call, wall_s=WALL_BUDGET, steps=STEP_BUDGET)
     if kind == 'ok':
         return 'tree', steps, None, None
     if kind == 'exc':
         if isinstance(val, RecursionError):
-            return 'overrun', steps, ('terminates', 'unbounded', f"RecursionError in parse({text!r})"), None
+            return 'overrun', steps, ('terminates', 'unbounded', f"RecursionError in {shown}"), None
         if is_parsing_error(val):
             return 'parsing-error', steps, None, None
-        return 'other-exception', steps, None, f"parse({text!r}) raises {type(val).__name__} (not a parsing error)"
+        return 'other-exception', steps, None, f"{shown} raises {type(val).__name__} (not a parsing error)"
     which = 'accepted-left-recursive-grammar' if lr else 'non-recursive-grammar'
     return 'overrun', steps, ('terminates', f"does-not-return:{which}",
-                              f"parse({text!r}) did not return or raise: {val}"), None
+                              f"{shown} did not return or raise: {val}"), None
 
 
-def make_case(G, start, terminals, smart, tokens=None):
+def make_case(G, start, terminals, smart, tokens=None, parse_start=None):
     c = {'grammar': gr.to_json(G), 'start': start, 'terminals': list(terminals), 'smart_factorization': smart}
     if tokens is not None:
         c['input'] = list(tokens)
+    if parse_start is not None:
+        c['parse_start_symbol_name'] = parse_start
     return c
 
 
@@ -196,7 +263,8 @@ def _limit_memory():
 
 def work(task):
     tier, fam, part = task
-    label, n_nt, terminals, max_alts, max_rhs, max_total, smarts, other_len = fam
+    label, n_nt, terminals, max_alts, max_rhs, max_total, smarts, other_len, mode = fam
+    with_unreachable = mode == 'unreachable'
     full = list(gr.all_strings(terminals, MAX_TOKENS))
     short = [w for w in full if len(w) <= other_len]
     assigns = gr.name_assignments(n_nt, POOL)
@@ -215,7 +283,11 @@ def work(task):
         if cur is None or size < cur[3]:
             fails[key] = (f"C03.{clause}", text, case, size)
 
-    for shape in gr.enumerate_grammars(n_nt, terminals, max_alts, max_rhs, max_total, part=part):
+    for shape in gr.enumerate_grammars(n_nt, terminals, max_alts, max_rhs, max_total, part=part,
+                                       reachable_only=not with_unreachable):
+        ucls = unreachable_class(shape, 'N0')
+        if with_unreachable and ucls is None:
+            continue            # all reachable: belongs to the 'reachable' families
         lr = gr.left_recursive(shape)
         hidden = lr and not plain_recursive(shape)
         nontrivial = has_nullable_prefix(shape)
@@ -225,7 +297,13 @@ def work(task):
             if hidden:
                 for ev in hidden_orders(G):
                     hits[ev] += 1
+            # parse is called from the constructor's start symbol and, in the families with unreachable
+            # symbols, from every other nonterminal through the documented start_symbol_name argument
+            unreach = (set(G) - gr.reachable(G, start)) if with_unreachable else set()
+            parse_starts = [None] + ([x for x in sorted(G) if x != start] if with_unreachable else [])
             for smart in smarts:
+                if ucls is not None:
+                    hits['unreachable-symbols:' + ucls] += 1
                 cases.append((f"{gr.grammar_str(G)} / start {start} / smart={smart}", nontrivial))
                 stats['recursive' if lr else 'non-recursive'] += 1
                 status, parser, fl, dg = check_construction(G, start, terminals, smart, lr, hidden)
@@ -241,18 +319,28 @@ def work(task):
                         continue
                     lr_probed += 1
                 inputs = full if ((ai == 0 and smart is smarts[0]) or lr) else short
-                for w in inputs:
-                    outcome, steps, fl1, dg1 = check_parse(parser, w, lr)
-                    stats['parses'] += 1
-                    stats['parse:' + outcome] += 1
-                    if fl1 is not None:
-                        fail(fl1[0], fl1[1], f"[{gr.grammar_str(G)}] (start {start}, smart_factorization={smart}): "
-                             + fl1[2], make_case(G, start, terminals, smart, w))
-                        lr_overruns += 1 if lr else 0
-                        break           # one overrun per grammar is enough (each costs the whole budget)
-                    max_steps = max(max_steps, steps)
-                    if dg1 and len(diags) < 5:
-                        diags.append(f"[{gr.grammar_str(G)}] {dg1}")
+                overrun = False
+                for ps in parse_starts:
+                    if ps in unreach:
+                        hits['parse:start_symbol_name-unreachable-from-constructor-start-symbol'] += 1
+                        stats['grammars-parsed-from-an-unreachable-symbol'] += 1
+                    for w in inputs:
+                        outcome, steps, fl1, dg1 = check_parse(parser, w, lr, ps)
+                        stats['parses'] += 1
+                        stats['parse:' + outcome] += 1
+                        if ps is not None:
+                            stats['parses-with-start_symbol_name'] += 1
+                        if fl1 is not None:
+                            fail(fl1[0], fl1[1], f"[{gr.grammar_str(G)}] (start {start}, smart_factorization={smart}): "
+                                 + fl1[2], make_case(G, start, terminals, smart, w, ps))
+                            lr_overruns += 1 if lr else 0
+                            overrun = True
+                            break       # one overrun per grammar is enough (each costs the whole budget)
+                        max_steps = max(max_steps, steps)
+                        if dg1 and len(diags) < 5:
+                            diags.append(f"[{gr.grammar_str(G)}] {dg1}")
+                    if overrun:
+                        break
     return cases, fails, hits, diags, stats, max_steps
 
 
@@ -291,8 +379,16 @@ def run(b):
         b.error("no grammar was accepted / no input was parsed: the terminates clause was not exercised")
     if stats['recursive'] == 0 or stats['non-recursive'] == 0:
         b.error("the enumeration did not contain both recursive and non-recursive grammars")
+    if stats['grammars-parsed-from-an-unreachable-symbol'] == 0:
+        b.error("no accepted grammar was parsed with start_symbol_name = a symbol unreachable from the start symbol")
     b.require_reach(['hidden-recursion:nullable-sorts-before-recursive',
-                     'hidden-recursion:nullable-sorts-after-recursive'])
+                     'hidden-recursion:nullable-sorts-after-recursive',
+                     'unreachable-symbols:no-cycle',
+                     'unreachable-symbols:cycle-also-among-reachable',
+                     'unreachable-symbols:cycle-only-among-unreachable:direct',
+                     'unreachable-symbols:cycle-only-among-unreachable:indirect',
+                     'unreachable-symbols:cycle-only-among-unreachable:hidden',
+                     'parse:start_symbol_name-unreachable-from-constructor-start-symbol'])
 
 
 # ---------------------------------------------------------------------------------------------
@@ -313,8 +409,13 @@ def replay_case(case):
     observed.extend(f[2] for f in fails)
     observed.extend(diags)
     if status == 'accepted' and case.get('input') is not None:
-        outcome, steps, fl, dg = check_parse(parser, case['input'], lr)
-        observed.append(f"parse({gr.text_of(case['input'])!r}): {outcome} after {steps} parse-loop events")
+        ps = case.get('parse_start_symbol_name')
+        if ps is not None and ps not in G:
+            return holds, observed + [f"parse start symbol {ps!r} is not a nonterminal of the grammar: parse not run"]
+        outcome, steps, fl, dg = check_parse(parser, case['input'], lr, ps)
+        observed.append(f"parse({gr.text_of(case['input'])!r}"
+                        + (f", start_symbol_name={ps!r}" if ps is not None else '')
+                        + f"): {outcome} after {steps} parse-loop events")
         if fl is not None:
             holds = False
             observed.append(fl[2])
